@@ -124,6 +124,8 @@ def _fd_case(draw):
         # evaluation point far from the origin: x = x_small + X0 with |X0_j| up to 1e8, function g(y - X0) (values O(1),
         # evaluated without cancellation error because y - X0 is exact for y near X0)
         "X0": [draw(st.sampled_from([0.0, 0.0, 1.0, -1.0])) * 10.0 ** draw(st.integers(0, 8)) for _ in range(n)],
+        # an integer-typed evaluation point with an integer-coefficient polynomial (x0 = np.array([1, 2]) style)
+        "int_point": [draw(st.integers(-4, 4)) for _ in range(n)] if draw(st.integers(0, 5)) == 0 else None,
     }
 
 
@@ -296,6 +298,18 @@ def _check_fd(spec, res):
     method = spec["method"]
     eps = 1e-6 if spec["eps"] is None else spec["eps"]
     kw = {} if spec["eps"] is None else {"eps": eps}
+    if spec.get("int_point") is not None and method != "cs":
+        # f(y) = Ai (y*y) + Ci y with integer matrices at an integer point: values of integer type
+        Ai = np.round(2 * A[:, :1] @ np.ones((1, n))).astype(int)
+        Ci = np.round(C).astype(int)
+        xi_ = np.array(spec["int_point"], dtype=int).reshape(xs)
+        f = lambda y: (Ai @ (y.reshape(-1) * y.reshape(-1)) + Ci @ y.reshape(-1)).reshape(fs)
+        exact = (2 * Ai * xi_.reshape(-1)[None, :] + Ci).astype(float).reshape(fs + xs)
+        x = xi_
+        xsm = xi_.reshape(-1).astype(float)
+        A, B, C = Ai.astype(float), np.zeros((n, n)), Ci.astype(float)
+        # error model for the polynomial: second derivative 2|Ai|, third derivative zero
+        spec = dict(spec, _poly=True)
     got = approx_fprime(x.copy(), f, method=method, **kw)
     site = f"approx_fprime[{method}]"
     feats = {"method": method}
@@ -308,6 +322,11 @@ def _check_fd(spec, res):
     M2 = np.abs(A) @ (B**2)  # (m, n): bound on |d2 f_i / dx_j^2|
     M3 = np.abs(A) @ (np.abs(B) ** 3)
     M1 = np.abs(A) @ np.abs(B) + np.abs(C)
+    if spec.get("_poly"):
+        M0 = np.abs(A) @ (xsm * xsm + 1.0) + np.abs(C) @ (np.abs(xsm) + 1.0)
+        M2 = 2 * np.abs(A)
+        M3 = np.zeros_like(M2)
+        M1 = 2 * np.abs(A) * (np.abs(xsm)[None, :] + 1.0) + np.abs(C)
     if method == "2-point":
         bound = 0.5 * eps * M2 + 2 * em * (M0[:, None] + M1 * 3) / eps
     elif method == "3-point":
@@ -321,6 +340,8 @@ def _check_fd(spec, res):
     if not ratio <= 1.0:
         res.fail("fd_accuracy", site, ratio, feats, f"max error/bound = {ratio:.3e}, max err {float(err.max()):.3e}")
     res.nontrivial = len(xs) == 2 or len(fs) == 2
+    if spec.get("_poly"):
+        res.label("fd:integer_point")
     res.label(f"fd:{method}", "fd:far_from_origin" if np.any(np.abs(X0) >= 1e4) else "fd:near_origin")
 
 
